@@ -67,7 +67,7 @@ theorem bodyCallbackC_PV (o : Owner) (re : List Nat) (st : Status) (t : Nat) (re
   have hnone : ∀ r : Reply, (none : Option Reply) = some r → FromAcc base r := fun _ h => nomatch h
   unfold bodyCallbackC
   split
-  · simpa only [List.append_nil] using h
+  · simpa only [PV, chan_frame, List.append_nil] using h
   · rename_i id
     split
     · simpa only [PV, chan_frame, List.append_nil] using h
